@@ -16,7 +16,7 @@ EXPLANATION = (
     'with no effect after it.  Does not decide the reply grammar over all strings nor that '
     'sorted() yields the requested order.')
 ASSUMPTIONS = ['int(), range(), sorted(), enumerate() behave as documented']
-MINIMUM = {'R13.1': 4, 'R13.2': 2, 'R13.3': 3, 'R13.4': 2, 'R13.5': 1, 'R13.6': 1}
+MINIMUM = {'R13.1': 4, 'R13.2': 2, 'R13.3': 3, 'R13.4': 2, 'R13.5': 1, 'R13.6': 1, 'R13.7': 1}
 
 
 
@@ -123,6 +123,43 @@ def check(ctx):
         same_exp = bool(s_sig) and s_sig <= v_sig
         ctx.ob('R13.1', 'validation and selection iterate the same index expansion', same_exp,
                node=lk, message='the indexes used for selection are not the ones validated')
+    # ---- R13.7 "a-b" expands to range(int(a), int(b) + 1): the bounds are the two pieces of
+    # the reply in the order typed (a reversed range selects nothing)
+    def from_prompt(t):
+        return contains(t, lambda x: isinstance(x, Call) and x.fn in ('input', 'raw_input'))
+
+    def piece(t):
+        fl = flat(t)
+        if len(fl) != 1:
+            return 'ambiguous'
+        x = fl[0]
+        if is_call(x, 'int') and len(x.args) == 1:
+            y = strip(x.args[0])
+            if isinstance(y, Sub) and isinstance(strip(y.index), Const) and \
+                    isinstance(strip(y.base), MCall) and strip(y.base).name in ('split',
+                                                                                'rsplit'):
+                return (cid(y.base), strip(y.index).value)
+        return None
+    seen_rg = set()
+    for lp in b.nodes('loop'):
+        it = lp.data.get('iter')
+        it = strip(it) if it is not None else None
+        if not (is_call(it, 'range') and len(it.args) == 2 and from_prompt(it)):
+            continue
+        if cid(it) in seen_rg:
+            continue
+        seen_rg.add(cid(it))
+        lo, hi = it.args
+        hi_s = strip(hi)
+        if isinstance(hi_s, Bin) and hi_s.op == '+' and is_const(strip(hi_s.right), 1):
+            hi = hi_s.left
+        pl, ph = piece(lo), piece(hi)
+        ok = 'ambiguous' not in (pl, ph) and (
+            pl is None or ph is None or (pl[0] == ph[0] and (pl[1], ph[1]) == (0, 1)))
+        ctx.ob('R13.7', 'a range of the reply runs from its first to its second number', ok,
+               node=lp, message='the bounds of an "a-b" range are %s and %s: not the first and '
+                                'the second number of the reply in the order typed (a reversed '
+                                'range must select nothing)' % (short(lo, 60), short(hi, 60)))
     # ---- R13.3 one materialised sequence
     enums = [n for n in b.nodes('enumerate')]
     printed = []
